@@ -1,0 +1,18 @@
+//go:build verif
+
+// Contracts for the deductive checks under /verif (comment-only; compiled only with -tags verif).
+
+package params
+
+// Fork n is active at height h when it is scheduled and its block is at or below h.
+//@ macro forked(c, n, h) = has(c.HF, n) && c.HF[n] != nil && big(c.HF[n]) <= big(h)
+
+// The header (hash algorithm) version is a function of the height and the fork schedule only:
+// 4 from HF9, 3 from HF8, 2 from HF5, otherwise 1.
+//@ func ChainConfig.GetBlockVersion
+//@   requires c != nil && height != nil
+//@   ensures[C14] @schedule (forked(c, 9, height) ==> result == 4) && (!forked(c, 9, height) && forked(c, 8, height) ==> result == 3)
+//@     && (!forked(c, 9, height) && !forked(c, 8, height) && forked(c, 5, height) ==> result == 2)
+//@     && (!forked(c, 9, height) && !forked(c, 8, height) && !forked(c, 5, height) ==> result == 1)
+//@   assigns nothing
+//@   nopanic[C14]
